@@ -58,6 +58,11 @@ pub async fn spawn(user: &str, password: &str, level: u128, quic: bool, rules: &
 
 /// `creds_text` = the credentials file as it is to be written (otherwise one client, as TOML basic strings)
 pub async fn spawn_with(user: &str, password: &str, level: u128, quic: bool, rules: &str, creds_text: Option<&str>) -> Option<Proc> {
+    spawn_full(user, password, level, quic, rules, creds_text, false).await
+}
+
+/// `logfile` = the binary is given `--logfile <dir>/endpoint.log` (read back together with its stdout)
+pub async fn spawn_full(user: &str, password: &str, level: u128, quic: bool, rules: &str, creds_text: Option<&str>, logfile: bool) -> Option<Proc> {
     let bin = bin_path();
     if !std::path::Path::new(&bin).exists() {
         return None;
@@ -82,9 +87,12 @@ pub async fn spawn_with(user: &str, password: &str, level: u128, quic: bool, rul
         std::fs::write(dir.join("hosts.toml"), hosts).ok()?;
         std::fs::write(dir.join("credentials.toml"), creds).ok()?;
         std::fs::write(dir.join("rules.toml"), rules).ok()?;
-        let mut child = Command::new(&bin)
-            .arg("-l")
-            .arg(["info", "debug", "trace"][(level as usize).min(2)])
+        let mut cmd = Command::new(&bin);
+        cmd.arg("-l").arg(["info", "debug", "trace"][(level as usize).min(2)]);
+        if logfile {
+            cmd.arg("--logfile").arg(dir.join("endpoint.log"));
+        }
+        let mut child = cmd
             .arg(dir.join("vpn.toml"))
             .arg(dir.join("hosts.toml"))
             .stdin(Stdio::null())
@@ -159,13 +167,21 @@ async fn connect_status(addr: std::net::SocketAddr, target: &str, auth: Option<&
 }
 
 /// scenario 2: the credentials file as the binary reads it, and the binary's own log.
-/// in : [2, 0, log level] user password wrong-password
+/// in : [2, log to a file (0|1), log level] user password wrong-password [credentials file text] [SNI credentials label to connect with]
 /// out: [996] | [status with the configured pair, with the wrong password, with the pair swapped, without credentials,
 ///       exit code after the interrupt, log lines, log lines containing the password / wrong password / their Basic tokens]
-async fn credentials(f: Vec<u128>, user: String, password: String, wrong: String, creds_text: Option<String>) -> Vec<Tok> {
-    let Some(mut p) = spawn_with(&user, &password, f[2], false, "", creds_text.as_deref()).await else {
+async fn credentials(f: Vec<u128>, user: String, password: String, wrong: String, creds_text: Option<String>, label: String) -> Vec<Tok> {
+    let Some(mut p) = spawn_full(&user, &password, f[2], false, "", creds_text.as_deref(), f[1] == 1).await else {
         return vec![vec![996]];
     };
+    if !label.is_empty() {
+        // a connection whose server name starts with a credentials label (it is refused or not: what matters is the log)
+        if let Some(mut s) = crate::front::tls_connect(p.addr, &format!("{}.localhost", label), &[b"http/1.1"]).await {
+            let _ = s.write_all(b"CONNECT _check HTTP/1.1\r\nHost: x\r\n\r\n").await;
+            let mut buf = [0u8; 256];
+            let _ = tokio::time::timeout(Duration::from_millis(300), s.read(&mut buf)).await;
+        }
+    }
     let mk = |u: &str, pw: &str| basic(u, pw).into_bytes();
     let s1 = connect_status(p.addr, "_check", Some(&mk(&user, &password))).await;
     let s2 = connect_status(p.addr, "_check", Some(&mk(&user, &wrong))).await;
@@ -183,12 +199,17 @@ async fn credentials(f: Vec<u128>, user: String, password: String, wrong: String
         tokio::time::sleep(Duration::from_millis(25)).await;
     }
     tokio::time::sleep(Duration::from_millis(50)).await;
-    let log = p.log.lock().unwrap().clone();
+    let mut log = p.log.lock().unwrap().clone();
+    if let Ok(file) = std::fs::read(p.dir.join("endpoint.log")) {
+        log.extend_from_slice(&file);
+    }
     let text = String::from_utf8_lossy(&log).to_string();
     use base64::Engine;
     let enc = |u: &str, pw: &str| base64::engine::general_purpose::STANDARD.encode(format!("{}:{}", u, pw));
     let needles: Vec<String> = [password.clone(), wrong.clone(), enc(&user, &password), enc(&user, &wrong), enc(&password, &user)]
         .into_iter()
+        .chain(std::iter::once(label.to_lowercase()))
+        .chain(std::iter::once(label.clone()))
         .filter(|n| n.len() >= 6)
         .collect();
     let hits = text.lines().filter(|l| needles.iter().any(|n| l.contains(n.as_str()))).count() as u128;
@@ -204,7 +225,8 @@ pub fn run(toks: Vec<Tok>) -> Vec<Tok> {
     if f[0] == 2 {
         let wrong = text(3);
         let text = toks.get(4).filter(|t| !t.is_empty()).map(|t| String::from_utf8_lossy(&bytes(t)).to_string());
-        return rt.block_on(credentials(f, user, password, wrong, text));
+        let label = toks.get(5).map(|t| String::from_utf8_lossy(&bytes(t)).to_string()).unwrap_or_default();
+        return rt.block_on(credentials(f, user, password, wrong, text, label));
     }
     if f[0] == 3 {
         // the rules file as the binary reads it: in [3, 0, level] rules-file-text; out as c04_front (TLS)
